@@ -39,7 +39,7 @@ func c05Items(v string, inner bool) []string {
 	return items
 }
 
-var c05LoopKinds = []string{"while", "for", "for-nocond", "for-noinc", "for-noinit"}
+var c05LoopKinds = []string{"while", "for", "for-nocond", "for-noinc", "for-noinit", "for-multivar"}
 
 // c05Loop builds a bounded loop of the given kind over variable v.
 func c05Loop(kind, v, body string) string {
@@ -53,6 +53,9 @@ func c05Loop(kind, v, body string) string {
 		return K["for"] + " (" + Var(v, P("init", "0")) + " ; " + v + " = " + P("inc", v+" + 1") + ") {\n" + If(v+" >= 3", Break()) + "\n" + body + "}\n"
 	case "for-noinc":
 		return K["for"] + " (" + Var(v, P("init", "0")) + " " + P("cond", v+" < 3") + "; ) {\n" + v + " = " + v + " + 1;\n" + body + "}\n"
+	case "for-multivar":
+		lim := "lim" + v
+		return K["for"] + " (" + K["var"] + " " + v + " = " + P("init", "0") + ", " + lim + " = 3; " + P("cond", v+" < "+lim) + "; " + v + " = " + P("inc", v+" + 1") + ") {\n" + body + "}\n"
 	case "for-noinit":
 		return Var(v, "0") + "\n" + K["for"] + " (; " + P("cond", v+" < 3") + "; " + v + " = " + P("inc", v+" + 1") + ") {\n" + body + "}\n"
 	}
@@ -95,7 +98,7 @@ func c05Judge(c *Ctx, cs *Case) {
 func c05Run(c *Ctx) {
 	pre := c05Prelude()
 	// 1. loop skeletons
-	innerKinds := []string{"while", "for", "for-noinc"}
+	innerKinds := []string{"while", "for", "for-noinc", "for-multivar"}
 	innerItems := c05Items("j", true)[:9]
 	innerItems = append(innerItems, If("i == 1", Break()), If("i == 2", Continue()))
 	var innerLoops []string
@@ -118,7 +121,12 @@ func c05Run(c *Ctx) {
 		rec = func(usedInner bool) {
 			if len(seq) > 0 && c.Mine() {
 				body := strings.Join(seq, "\n") + "\n" + Print(`"end-body"`) + "\n"
-				src := pre + c05Tagify(c05Loop(ok, "i", body)+Print(`"after"`)+"\n")
+				loop := c05Loop(ok, "i", body)
+				if ok == "for-multivar" {
+					// entered twice from the same scope: the header variables must be fresh each time
+					loop = loop + Print(`"between"`) + "\n" + loop
+				}
+				src := pre + c05Tagify(loop+Print(`"after"`)+"\n")
 				c05Judge(c, &Case{Gen: "loop-skeletons", Src: src, X: map[string]string{"outer": ok}})
 			}
 			if len(seq) == maxItems {
@@ -184,6 +192,10 @@ func c05Run(c *Ctx) {
 	}
 	// 4. hand-written: break leaves only the innermost loop, continue goes to increment, etc.
 	for _, src := range []string{
+		// a for header declaring two variables, as the unbraced body of another loop (re-entered from one scope)
+		Lines(Var("r", "0"), While("r < 3", For(K["var"]+" i = r, n = r + 2;", "i < n", "i = i + 1", "{ "+Print("r * 10 + i")+" r = r + 1; }")), Print("r")),
+		Lines(For(Var("o", "0"), "o < 2", "o = o + 1", For(K["var"]+" i = 0, n = 2;", "i < n", "i = i + 1", Print("o * 10 + i")))),
+		Lines(Var("i", "7"), Var("n", "8"), For(K["var"]+" i = 0, n = 2;", "i < n", "i = i + 1", "{ "+If("i == 0", Continue())+" "+Print("i")+" }"), Print("i + n")),
 		Lines(For(Var("i", "0"), "i < 3", "i = i + 1", "{ "+For(Var("j", "0"), "j < 3", "j = j + 1", "{ "+If("j == 1", Break())+" "+Print("i * 10 + j")+" }")+" "+Print(`"outer"`)+" }")),
 		Lines(For(Var("i", "0"), "i < 4", "i = i + 1", "{ "+If("i % 2 == 0", Continue())+" "+Print("i")+" }")),
 		Lines(Var("i", "0"), While("i < 5", "{ i = i + 1; "+If("i == 2", Continue())+" "+If("i == 4", Break())+" "+Print("i")+" }"), Print("i")),
@@ -218,7 +230,7 @@ func c05Run(c *Ctx) {
 func init() {
 	register(&CheckDef{
 		ID:   "C05",
-		Rule: "programs: every loop skeleton = outer loop of 5 kinds (while, for, for without condition / increment / initializer) whose body is every sequence of <=2 (quick) / <=3 (thorough) items from 13 control items (trace, break, continue, guarded break/continue, if/else arms, nested block) with at most one nested inner loop (3 kinds x all bodies of <=2 of 11 items); initializer, every condition test and every increment is a tracing probe call, so the whole order init->cond->body->incr is printed; arm selection in 6 condition contexts for 21 values of every kind; stray break/continue/return in 8 top-level shapes x 3 leading-line counts (in-process and through the binary); hand-written nests; seeded random programs. Compared with refborno on the complete trace, first diagnostic and exit status. Non-trivial = distinct program that executes at least one loop iteration or one if arm.",
+		Rule: "programs: every loop skeleton = outer loop of 6 kinds (while, for, for without condition / increment / initializer, for declaring two header variables) whose body is every sequence of <=2 (quick) / <=3 (thorough) items from 13 control items (trace, break, continue, guarded break/continue, if/else arms, nested block) with at most one nested inner loop (4 kinds x all bodies of <=2 of 11 items); initializer, every condition test and every increment is a tracing probe call, so the whole order init->cond->body->incr is printed; arm selection in 6 condition contexts for 21 values of every kind; stray break/continue/return in 8 top-level shapes x 3 leading-line counts (in-process and through the binary); hand-written nests; seeded random programs. Compared with refborno on the complete trace, first diagnostic and exit status. Non-trivial = distinct program that executes at least one loop iteration or one if arm.",
 		Assumptions: []string{"every generated loop is bounded by construction; programs the model cannot finish in 200000 steps are skipped"},
 		Run:         c05Run,
 		Judge:       c05Judge,
